@@ -150,24 +150,29 @@ func (s *Modifier) ModifyResponse(res *http.Response) error {
 	var ranges [][]int
 	for _, rng := range sranges {
 		rng = strings.TrimSpace(rng)
+		if rng == "" {
+			// Empty list elements are legal and carry nothing.
+			continue
+		}
 		if strings.HasPrefix(rng, "-") {
 			// Suffix range: the last n bytes.
-			n, err := strconv.ParseInt(strings.TrimSpace(rng[1:]), 10, 64)
-			if errors.Is(err, strconv.ErrRange) && n > 0 {
-				// More digits than fit: longer than any file.
-				err = nil
-			}
-			if err != nil || n <= 0 {
+			n, err := position(rng[1:])
+			if err != nil || n < 0 {
 				notSatisfiable(res, info.Size())
 				return nil
 			}
-			if n > info.Size() {
-				n = info.Size()
+			if n == 0 || info.Size() == 0 {
+				// Selects nothing; the other ranges of the set are still served.
+				continue
 			}
-			rng = fmt.Sprintf("%d-%d", info.Size()-n, info.Size()-1)
+			if int64(n) > info.Size() {
+				n = int(info.Size())
+			}
+			rng = fmt.Sprintf("%d-%d", info.Size()-int64(n), info.Size()-1)
 		}
 		if strings.HasSuffix(rng, "-") {
-			rng = fmt.Sprintf("%s%d", rng, info.Size()-1)
+			// Open-ended: through the last byte (clamped below).
+			rng = fmt.Sprintf("%s%d", rng, math.MaxInt)
 		}
 
 		rs := strings.Split(rng, "-")
@@ -188,9 +193,13 @@ func (s *Modifier) ModifyResponse(res *http.Response) error {
 			return nil
 		}
 
-		if start > end || start < 0 || int64(start) >= info.Size() {
+		if start > end || start < 0 {
 			notSatisfiable(res, info.Size())
 			return nil
+		}
+		if int64(start) >= info.Size() {
+			// Selects nothing; the set is satisfiable if another range is.
+			continue
 		}
 		// A last position beyond the end means "through the last byte".
 		if int64(end) >= info.Size() {
@@ -198,6 +207,10 @@ func (s *Modifier) ModifyResponse(res *http.Response) error {
 		}
 
 		ranges = append(ranges, []int{start, end})
+	}
+	if len(ranges) == 0 {
+		notSatisfiable(res, info.Size())
+		return nil
 	}
 
 	// Range request.
@@ -274,8 +287,12 @@ func notSatisfiable(res *http.Response, size int64) {
 // position parses a byte position. Digits that do not fit an int stand for a
 // position beyond any file, which the caller clamps.
 func position(s string) (int, error) {
-	n, err := strconv.Atoi(strings.TrimSpace(s))
-	if errors.Is(err, strconv.ErrRange) && n > 0 {
+	s = strings.TrimSpace(s)
+	if s == "" || strings.Trim(s, "0123456789") != "" {
+		return 0, fmt.Errorf("not a byte position: %q", s)
+	}
+	n, err := strconv.Atoi(s)
+	if errors.Is(err, strconv.ErrRange) {
 		return math.MaxInt, nil
 	}
 	return n, err
